@@ -30,6 +30,7 @@ MAPPING_MIXIN = ("get", "items", "values", "keys")
 RECORD_CLASSES: dict = {}  # class qualname -> (TRec, constructor(ex, args, kwargs) -> SV)
 RECORD_METHODS: dict = {}  # (class qualname, method) -> model(ex, recv, args, kwargs)
 RECORD_SETATTR: dict = {}  # class qualname -> model(ex, rec, attr, value) -> stored value | NotImplemented
+CLASS_CONSTANTS: dict = {}  # (class qualname, mangled attribute) -> model(ex) -> value   (class-level constants that are not literals)
 
 
 def _is_mapping(cls):
@@ -93,6 +94,17 @@ def to_val(ex, v):
             return f(*parts) if parts else z3.Const("val_empty_tuple", ValS)
     if isinstance(v, BuiltinV):
         return z3.Const(f"val_const_{v.name.replace('.', '_')}", ValS)
+    if isinstance(v, Ref):
+        from .values import ListObj, TList
+
+        o = st.heap.get(v.id)
+        if isinstance(o, ListObj) and not o.is_empty_literal:
+            try:
+                lt = TList(o.t)
+                f = z3.Function(f"val_of_list_{o.t.name}", lt.sort(), ValS)
+                return f(lt.embed(st, v))
+            except Unsupported:
+                return None
     return None
 
 
@@ -120,6 +132,12 @@ class GemseoModels:
             if attr in ("shape", "dtype", "T", "ndim", "imag") and obj.ty == TNd:
                 return opaque_apply(ex, f"attr_{attr}", [obj])
             return BoundMethod(obj, None, attr)
+        return NotImplemented
+
+    def class_constant(self, ex, ci, name):
+        f = CLASS_CONSTANTS.get((ci.qualname, name))
+        if f is not None:
+            return f(ex)
         return NotImplemented
 
     def record_setattr(self, ex, rec, attr, v):
